@@ -129,7 +129,7 @@ func (v *c10Env) expr(x ast.Expr) string {
 		fn := v.s.src(n.Fun)
 		switch {
 		case fn == "errors.Is" && len(n.Args) == 2:
-			return "(" + v.expr(n.Args[0]) + " == " + v.expr(n.Args[1]) + ")"
+			return "(errorsIs " + v.expr(n.Args[0]) + " " + v.expr(n.Args[1]) + ")"
 		case fn == "atomic.LoadInt32" && len(n.Args) == 1:
 			if u, ok := n.Args[0].(*ast.UnaryExpr); ok && u.Op == token.AND {
 				return v.expr(u.X)
@@ -234,6 +234,7 @@ func (e *emitter) c10Semantic(s *source) {
 		return v
 	}
 	e.printf("/-- error codes of the translation (a convention of the extractor, equal to `Spec.encErr`) -/\ndef errCancelWithNil : Nat := 0\ndef errDeadline : Nat := 1\ndef errReduceNoOutput : Nat := 2\n\n")
+	e.printf("/-- `errors.Is(err, target)` over codes: the same value, or a USER error whose value is / wraps the target — the codes of the harness: user error 111 (code 111+4) IS `ErrReduceNoOutput`, 112 (code 112+4) wraps it (`Spec.isNoOutput`) -/\ndef errorsIs (err target : Option Nat) : Bool :=\n  err == target || (target == some errReduceNoOutput && (err == some 115 || err == some 116))\n\n")
 
 	e.c10Def("withWorkers", "`WithWorkers(workers)`: the value stored into opts.workers", "(workers : Int)", "Int", func() string {
 		lits := c10Lits(c10Func(s, f, "WithWorkers").Body)
@@ -396,19 +397,48 @@ func (e *emitter) c10Semantic(s *source) {
 		c10Failf("context case not found")
 		return ""
 	})
-	e.c10Def("voidReturn", "what `MapReduceVoid` returns for the error of `MapReduce`", "(err : Option Nat)", "Option Nat", func() string {
+	e.c10Def("voidReturn", "what `MapReduceVoid` returns for the error of `MapReduce` (`fromCancel` = the error carries the mark of `markCancel`: the type assertion `err.(cancelError)` succeeds)", "(fromCancel : Bool) (err : Option Nat)", "Option Nat", func() string {
 		fd := c10Func(s, f, "MapReduceVoid")
-		if len(fd.Body.List) != 3 {
-			c10Failf("three statements expected")
+		if len(fd.Body.List) != 4 {
+			c10Failf("four statements expected: call, if marked, if no output, return")
 		}
-		i := c10FirstIf(fd.Body.List[1:2])
+		retOf := func(st ast.Stmt) ast.Expr {
+			r, ok := st.(*ast.ReturnStmt)
+			if !ok || len(r.Results) != 1 {
+				c10Failf("return of one value expected")
+			}
+			return r.Results[0]
+		}
+		i0, ok0 := fd.Body.List[1].(*ast.IfStmt)
+		if !ok0 || i0.Init == nil || s.src(i0.Init) != "ce, ok := err.(cancelError)" || i0.Else != nil || len(i0.Body.List) != 1 {
+			c10Failf("`if ce, ok := err.(cancelError); ok { return ce.error }` expected")
+		}
+		// ce.error is the error that was handed to cancel: the same code as `err` in the model's domain
+		v0 := env(map[string]string{"ok": "fromCancel", "ce.error": "err"})
+		i := c10FirstIf(fd.Body.List[2:3])
 		v := env(map[string]string{"err": "err"})
-		r1, ok1 := i.Body.List[0].(*ast.ReturnStmt)
-		r2, ok2 := fd.Body.List[2].(*ast.ReturnStmt)
-		if !ok1 || !ok2 || len(i.Body.List) != 1 || len(r1.Results) != 1 || len(r2.Results) != 1 || i.Else != nil {
+		if len(i.Body.List) != 1 || i.Else != nil || i.Init != nil {
 			c10Failf("if … { return x }; return y expected")
 		}
-		return "if " + v.expr(i.Cond) + " then " + v.expr(r1.Results[0]) + " else " + v.expr(r2.Results[0])
+		return "if " + v0.expr(i0.Cond) + " then " + v0.expr(retOf(i0.Body.List[0])) + " else if " + v.expr(i.Cond) + " then " +
+			v.expr(retOf(i.Body.List[0])) + " else " + v.expr(retOf(fd.Body.List[3]))
+	})
+	e.c10Def("markCancelArg", "`markCancel(cancel)(err)`: (what is handed to the real cancel, whether it carries the mark)", "(err : Option Nat)", "Option Nat × Bool", func() string {
+		lits := c10Lits(c10Func(s, f, "markCancel").Body)
+		if len(lits) != 1 || len(lits[0].Body.List) != 2 {
+			c10Failf("return func(err error) { if …; cancel(err) } expected")
+		}
+		i := c10FirstIf(lits[0].Body.List[:1])
+		l, r := c10OnlyAssign(s, i.Body)
+		cl, okc := r.(*ast.CompositeLit)
+		if l != "err" || i.Else != nil || !okc || s.src(cl.Type) != "cancelError" || len(cl.Elts) != 1 || s.src(cl.Elts[0]) != "err" {
+			c10Failf("`if err != nil { err = cancelError{err} }` expected")
+		}
+		arg := c10OnlyCallArg(s, &ast.BlockStmt{List: lits[0].Body.List[1:]}, "cancel", 0)
+		if s.src(arg) != "err" {
+			c10Failf("cancel(err) expected")
+		}
+		return "if " + env(map[string]string{"err": "err"}).expr(i.Cond) + " then (err, true) else (err, false)"
 	})
 	for _, fn := range []string{"Finish", "FinishVoid"} {
 		fn := fn
@@ -599,6 +629,9 @@ func init() {
 		e.c10CallArgs(s, f, "ForEach", "buildSource", "forEachBuildSourceArgs")
 		e.c10CallArgs(s, f, "MapReduceChan", "mapReduceWithPanicChan", "mapReduceChanForwardArgs")
 		e.c10CallArgs(s, f, "MapReduceVoid", "MapReduce", "mapReduceVoidForwardArgs")
+		e.c10CallArgs(s, f, "MapReduceVoid", "mapper", "mapReduceVoidMapperArgs")
+		e.c10CallArgs(s, f, "MapReduceVoid", "reducer", "mapReduceVoidReducerArgs")
+		e.shapeDef(s, f, "markCancel", "markCancelShape")
 		e.c10CallArgs(s, f, "mapReduceWithPanicChan", "reducer", "reducerCallArgs")
 		e.c10CallArgs(s, f, "mapReduceWithPanicChan", "mapper", "mapperCallArgs")
 		e.c10CallArgs(s, f, "mapReduceWithPanicChan", "drain", "callerDrainArgs")
